@@ -135,7 +135,7 @@ impl Property for C11 {
             },
             Phase::Random {
             name: "rebuilds",
-            cases: tier.pick(480, 12_000),
+            cases: tier.pick(480, 60_000),
             strat: Arc::new(|| {
                 (config_any(CfgParams { max_files: 8, sizes: size_small(), comp: comp_fast(), sign_prob: 0.3, file_kinds: true, force_large_prob: 0.05, rich_meta: true }), 1_000_000_000u32..1_700_000_000, any::<u64>())
                     .prop_map(|(mut cfg, sd, salt)| {
@@ -272,6 +272,20 @@ impl Property for C11 {
                 let t = u32::from_le_bytes([payload[4], payload[5], payload[6], payload[7]]);
                 if t > sd {
                     return Err(("payload-time-not-clamped".into(), format!("the gzip header of the payload carries timestamp {t}, later than the source date {sd}")));
+                }
+            }
+            // ... and so does every entry of the cpio archive inside it
+            let comp = fmt::get_str(&first, &seg.hdr, tags::PAYLOADCOMPRESSOR);
+            if let Ok(raw) = super::c08::decompress(comp.as_deref(), payload) {
+                let sizes: Vec<u64> = match fmt::get_u64s(&first, &seg.hdr, tags::LONGFILESIZES) {
+                    Some(v) => v,
+                    None => fmt::get_u32s(&first, &seg.hdr, tags::FILESIZES).unwrap_or_default().into_iter().map(u64::from).collect(),
+                };
+                if let Ok((entries, _)) = crate::refimpl::cpio::parse_archive(&raw, &sizes) {
+                    o.label("archive-entry-times-checked");
+                    if let Some(bad) = entries.iter().find(|e| e.mtime > sd) {
+                        return Err(("payload-time-not-clamped".into(), format!("the archive entry {:?} carries modification time {}, later than the source date {sd}", String::from_utf8_lossy(&bad.name), bad.mtime)));
+                    }
                 }
             }
             let times = signature_times(&first, &seg);
